@@ -1,4 +1,4 @@
-(* C31 driver.  case: "<t0> <results> <ops>" (see harness/h_c31.cpp); impl result: the token trace.
+(* C31 driver.  case: "<t0> <results> <ops> [<durations>]" (see harness/h_c31.cpp); impl result: the token trace.
    The model is run on the same script; its tie-breaking oracle is steered by the order in which the
    implementation ran the callbacks.  The oracle c31_ok is applied to the history rebuilt from the
    implementation's tokens (event id = callback number = index of the schedule call). *)
@@ -57,7 +57,7 @@ let show_hist (parks : int list) (h : hentry list) : string =
 
 (* implementation tokens -> history, tie preferences, script with the nf of every W op filled in;
    None when the trace is not of the expected shape *)
-let impl_hist (t0 : z) (sc : sop list) (impl : string) : (hentry list * z list * sop list) option =
+let impl_hist (dur : z -> z) (t0 : z) (sc : sop list) (impl : string) : (hentry list * z list * sop list) option =
   let toks = ref (words impl) in
   let next () = match !toks with [] -> None | x :: r -> toks := r; Some x in
   let peek () = match !toks with [] -> None | x :: _ -> Some x in
@@ -69,7 +69,8 @@ let impl_hist (t0 : z) (sc : sop list) (impl : string) : (hentry list * z list *
       let t = z_of_string (String.sub f (at + 1) (col - at - 1)) in
       let r = String.sub f (col + 1) (String.length f - col - 1) = "1" in
       h := HFire (nat_of_int cb, z_of_int cb, t, r) :: !h;
-      pref := z_of_int cb :: !pref
+      pref := z_of_int cb :: !pref;
+      now := Z.add !now (dur (z_of_int cb))          (* the callback took that long *)
     with _ -> ok := false) in
   let clear c = h := HClear (!now, nat_of_int (int_of_string (String.sub c 1 (String.length c - 1)))) :: !h in
   let is_f f = String.length f > 1 && f.[0] = 'f' and is_c c = String.length c > 1 && c.[0] = 'c' in
@@ -111,16 +112,20 @@ let impl_hist (t0 : z) (sc : sop list) (impl : string) : (hentry list * z list *
   if !ok && !toks = [] then Some (List.rev !h, List.rev !pref, List.rev !sc') else None
 
 let () = run_protocol (fun case impl ->
-  match words case with
-  | [t0; rs; ops] ->
+  let ws = (match words case with [a; b; c] -> [a; b; c; "-"] | l -> l) in
+  match ws with
+  | [t0; rs; ops; durs] ->
+    let durv = if durs = "-" then [||] else Array.of_list (List.map z_of_string (split_on ',' durs)) in
+    let dur (cb : z) : z = let c = int_of_z cb in if c >= 0 && c < Array.length durv then durv.(c) else z_of_int 0 in
+    let nT = Array.fold_left (fun a s -> a + String.length s) 0 (parse_res rs) in
     let t0 = z_of_string t0 and resv = parse_res rs and sc = parse_ops ops and parks = park_cbs ops in
     let res (cb : z) (n : nat) : bool =
       let c = int_of_z cb and n = int_of_nat n in
       c >= 0 && c < Array.length resv && n < String.length resv.(c) && resv.(c).[n] = 'T' in
-    let ih = (try impl_hist t0 sc impl with _ -> None) in
+    let ih = (try impl_hist dur t0 sc impl with _ -> None) in
     let pref = (match ih with Some (_, p, _) -> p | None -> []) in
     let sc = (match ih with Some (_, _, sc') -> sc' | None -> sc) in
-    let (((s, _), _), fin) = run_script res t0 pref sc in
+    let (((s, _), _), fin) = run_script res dur (nat_of_int (nT + 4)) t0 pref sc in
     let ms = (let t = show_hist parks (hist s) in (if t = "" then "-" else t) ^ (if fin then "" else " FUEL")) in
     let om = fin && c31_ok (hist s) in
     (* a clear() that returned while the callback was parked (w1) is a failure by itself: the call overlapped the callback *)
